@@ -27,7 +27,7 @@ from pulser.backend.default_observables import (
     StateResult,
 )
 from pulser.backend.results import Results
-from pulser.devices import MockDevice
+from pulser.devices import AnalogDevice, MockDevice
 from pulser.noise_model import NoiseModel
 from pulser_simulation import QutipBackendV2, QutipConfig, QutipOperator, QutipState
 
@@ -571,7 +571,7 @@ ONE = {"ising": "r", "xy": "d", "all": "r"}
 def build_sequence(case):
     n = case["n_atoms"]
     reg = Register.from_coordinates([(i * case["spacing"], 0.0) for i in range(n)], prefix="q")
-    seq = pulser.Sequence(reg, MockDevice)
+    seq = pulser.Sequence(reg, AnalogDevice if case.get("modulated") else MockDevice)
     if case["level"] == "xy":
         seq.declare_channel("mw", "mw_global")
         ch = "mw"
@@ -650,9 +650,22 @@ def run_backend(case):
                 init = QutipState.from_state_amplitudes(eigenstates=eig, amplitudes=amps)
             cfg = QutipConfig(observables=observables, default_evaluation_times=case["dflt"],
                               noise_model=NoiseModel(**noise), initial_state=init,
-                              sampling_rate=case.get("rate", 1.0))
+                              sampling_rate=case.get("rate", 1.0),
+                              with_modulation=bool(case.get("modulated")))
             backend = QutipBackendV2(seq, config=cfg)
     except Exception as e:  # noqa: BLE001
+        if case.get("modulated") and "extends further than sequence duration" in str(e):
+            # property C11's finding (1.0 * T * 1e-3 > T / 1000 for some durations T): with
+            # modulation the emulated duration is not known to the generator; not judged here
+            try:
+                from pulser.sampler import sample
+
+                t_emu = sample(seq, modulation=True).max_duration
+            except Exception:  # noqa: BLE001
+                t_emu = None
+            if t_emu is not None and 1.0 * t_emu * 1e-3 > t_emu / 1000:
+                run["c11_duration"] = t_emu
+                return run, viols
         bad(f"backend:construction-raises:{exc_name(e)}", f"building the backend raised {e!r}")
         return run, viols
     sim = backend._sim_obj
